@@ -6,12 +6,13 @@ import numpy as np
 from .. import cases, monitors
 
 TITLE = "Statistical sampler emits valid continua with the reference's statistics"
-DECIDING = ["M-VALID", "M-LAW-COUNTS", "M-LAW-GAPS", "M-LAW-DURATIONS", "M-LAW-CATEGORIES", "M-MEASURE", "M-REINIT"]
+DECIDING = ["M-VALID", "M-LAW-COUNTS", "M-LAW-GAPS", "M-LAW-DURATIONS", "M-LAW-CATEGORIES", "M-MEASURE", "M-REINIT", "M-PRECISION-SETTING"]
 LEVEL = "exploration"
 RULE = ("(1) per-draw validity on hostile parameter sets (custom: large deviations, zero / negative means, mean number of "
         "units 0, durations near the segment precision, weights None or skewed; reference-initialised: random labelled "
         "continua, ground-truth subsets, and re-initialisation of the same sampler object on the same reference with "
-        "another ground truth): non-empty, annotators == ground truth, every duration above the segment "
+        "another ground truth; pyannote's segment precision changed to 0.05 after import; custom parameters handed over as "
+        "numpy arrays that the caller overwrites afterwards): non-empty, annotators == ground truth, every duration above the segment "
         "precision, categories within the reference's / supplied ones - every draw; with a trace monitor on numpy's "
         "global RNG (each normal() carries one of the three (mean, deviation) pairs, each choice() the category array "
         "and weights, unit durations and labels are explained by recorded draws); (2) law: black-box moments over "
@@ -54,8 +55,20 @@ def make_sampler(case):
     s = pa.StatisticalContinuumSampler()
     if case["init"] == "custom":
         p = case["params"]
-        s.init_sampling_custom(list(p["annotators"]), p["avg_n"], p["std_n"], p["avg_gap"], p["std_gap"], p["avg_dur"],
-                               p["std_dur"], list(p["categories"]), None if p["weights"] is None else list(p["weights"]))
+        if case.get("caller_arrays"):
+            # the caller hands numpy arrays over and reuses (overwrites) its buffers afterwards
+            import numpy as np
+            cat_buf = np.array(list(p["categories"]))
+            w_buf = None if p["weights"] is None else np.array(list(p["weights"]), dtype=np.float64)
+            s.init_sampling_custom(list(p["annotators"]), p["avg_n"], p["std_n"], p["avg_gap"], p["std_gap"], p["avg_dur"],
+                                   p["std_dur"], cat_buf, w_buf)
+            cat_buf[:] = "tmp0"[:max(1, cat_buf.dtype.itemsize // 4)]
+            if w_buf is not None:
+                w_buf[:] = 0.0
+                w_buf[0] = 1.0
+        else:
+            s.init_sampling_custom(list(p["annotators"]), p["avg_n"], p["std_n"], p["avg_gap"], p["std_gap"], p["avg_dur"],
+                                   p["std_dur"], list(p["categories"]), None if p["weights"] is None else list(p["weights"]))
         gt = sorted(p["annotators"])
         cats = list(p["categories"])
         continuum = None
@@ -80,7 +93,8 @@ def units_of(sample):
     return {a: [(u.segment.start, u.segment.end, u.annotation) for u in sample._annotations[a]] for a in sample._annotations}
 
 
-def check_valid(ctx, sample, gt, allowed, where):
+def check_valid(ctx, sample, gt, allowed, where, precision=None):
+    PRECISION = precision if precision is not None else globals()["PRECISION"]
     ctx.count("M-VALID")
     us = units_of(sample)
     total = sum(len(v) for v in us.values())
@@ -310,6 +324,16 @@ def check_measure(ctx, h, cspec):
 
 # ------------------------------------------------------------------------------------------- cases
 def check_case(ctx, case):
+    if case.get("segment_precision") and not case.get("_inner"):
+        # the segment precision is a run-time setting of pyannote: the sampler must honour the value in force when it draws
+        import pyannote.core.segment as seg
+        old = seg.SEGMENT_PRECISION
+        seg.SEGMENT_PRECISION = case["segment_precision"]
+        try:
+            ctx.count("M-PRECISION-SETTING")
+            return check_case(ctx, dict(case, _inner=True))
+        finally:
+            seg.SEGMENT_PRECISION = old
     spy = rng_spy()
     try:
         sampler, gt, cats, continuum = make_sampler(case)
@@ -339,8 +363,8 @@ def check_case(ctx, case):
         except Exception as e:
             ctx.fail_exc(f"sampling-raises:{type(e).__name__}", e, monitor="M-VALID")
             return
-        us = check_valid(ctx, sample, gt, allowed, case["init"])
-        if i < 40 or i % 25 == 0:
+        us = check_valid(ctx, sample, gt, allowed, case["init"], precision=case.get("segment_precision"))
+        if (i < 40 or i % 25 == 0) and not case.get("segment_precision"):
             check_trace(ctx, list(log), us, h, gt)
         if case.get("benign"):
             collected.append(us)
@@ -441,6 +465,13 @@ def run(ctx):
         case = {"init": "reference", "continuum": cspec, "ground_truth": gt, "benign": False, "draws": 60}
         if n >= 3 and rng.random() < 0.6:
             case["reinit_ground_truth"] = rng.choice([[], sorted(rng.sample(names, rng.randint(2, n)))])
+        plan_.append(case)
+    for _ in range(ctx.scale(2, 12)):
+        params = {"annotators": cases.ANNOTATOR_NAMES[:rng.randint(2, 3)], "avg_n": 6.0, "std_n": 1.0, "avg_gap": 1.0, "std_gap": 0.3,
+                  "avg_dur": rng.choice([0.06, 0.08, 0.12]), "std_dur": 0.05, "categories": ["a", "b"], "weights": None}
+        plan_.append({"init": "custom", "params": params, "benign": False, "draws": 40, "segment_precision": 0.05})
+    for _ in range(ctx.scale(1, 4)):
+        case = {"init": "custom", "params": benign_custom(rng), "benign": True, "draws": ctx.scale(800, 3000), "caller_arrays": True}
         plan_.append(case)
     plan_.sort(key=lambda c: bool(c.get("benign")))     # the cheap per-draw validity cases first, the long law runs last
     for case in plan_:
